@@ -8,7 +8,7 @@ CHECK = {
  'title': 'Stored characterisation is reused; fans are analysed once',
  'level': 'model_checking',
  'technique': 'explicit-state BFS over sequences of real daemon starts and real `fan reset` / `fan init` commands, state = logical bbolt content, replay-based successors; reference model of stored entries',
- 'rule': 'per configuration (fan kind hwmon/file/cmd x pwmMap configured or not x minPwm+maxPwm configured or not) BFS over operation sequences {start, fan reset, fan init, user adds/removes the pwmMap in the configuration file, fan reset of a second (never started) fan} to depth 3 (quick) / 5 (thorough); '
+ 'rule': 'per configuration (fan kind hwmon/file/cmd x pwmMap configured or not x minPwm+maxPwm configured or not; file/cmd fans also without any RPM source, whose complete stored state is the PWM map) BFS over operation sequences {start, fan reset, fan init, user adds/removes the pwmMap in the configuration file, fan reset of a second (never started) fan} to depth 3 (quick) / 5 (thorough); '
          'a start is the real path YAML -> loader -> validator -> InitializeObjects -> NewFanController -> Run in a virtual-time bubble up to the third regulation cycle. Observed: every PWM write between '
          'start and the first curve evaluation (descending run > 8 = sweep, ascending run > 8 = RPM-curve measurement). Oracle from a 3-line model of stored entries: stored (or configured) => no PWM write '
          'before regulation; configured pwmMap => never swept and the regulated device value is the output of the configured map; minPwm+maxPwm configured => no measurement; reset clears, start/init store. distinct_nontrivial = distinct database states reached.',
